@@ -5,6 +5,7 @@
 void coap_ticks(coap_tick_t *t) { *t = (coap_tick_t)vin_scalar("stubin_ticks"); }
 #else
 coap_tick_t nondet_stubin_ticks(void);
-void coap_ticks(coap_tick_t *t) { coap_tick_t stubin_ticks = nondet_stubin_ticks(); *t = stubin_ticks; }
+coap_tick_t G_last_ticks;   /* ghost: the value the clock stub returned last */
+void coap_ticks(coap_tick_t *t) { coap_tick_t stubin_ticks = nondet_stubin_ticks(); G_last_ticks = stubin_ticks; *t = stubin_ticks; }
 #endif
 #endif
